@@ -423,6 +423,67 @@ class E1Session(SessionBase):
             self.nontrivial = True
         return {'kind': 'ok:' + '+'.join(sorted(self.seen_types)), 'gsnr': jdigest([round(float(x), 9) for x in rx.raw_snr])}
 
+    def do_propagate_auto(self, src, dst, trx, spacing, nch):
+        """the receiver figures are recomputed once per candidate mode on the same propagation result (automatic mode
+        selection): what the transceivers report afterwards must still obey the identity"""
+        if self.discarded:
+            return {'kind': 'discarded'}
+        from gnpy.tools.json_io import requests_from_json
+        from gnpy.topology.request import propagate_and_optimize_mode, correct_json_route_list
+        sites = self.world['meta']['sites']
+        a, b = sites[src % len(sites)], sites[dst % len(sites)]
+        if a == b:
+            b = sites[(dst + 1) % len(sites)]
+        trxs = [t['type_variety'] for t in self.world['eqpt']['Transceiver']]
+        name = trxs[trx % len(trxs)]
+        doc = {'path-request': [{
+            'request-id': 'auto', 'source': f'trx {a}', 'destination': f'trx {b}', 'src-tp-id': f'trx {a}',
+            'dst-tp-id': f'trx {b}', 'bidirectional': False,
+            'path-constraints': {'te-bandwidth': {'technology': 'flexi-grid', 'trx_type': name, 'trx_mode': None,
+                                                  'effective-freq-slot': [{'N': None, 'M': None}], 'spacing': spacing,
+                                                  'max-nb-of-channel': nch, 'output-power': None,
+                                                  'path_bandwidth': 100e9}}}]}
+        try:
+            req = correct_json_route_list(self.network, requests_from_json(doc, self.equipment))[0]
+            req.nodes_list.append(req.destination)
+            req.loose_list.append('STRICT')
+            path = deepcopy(compute_constrained_path(self.network, req))
+        except Exception as e:      # noqa
+            return {'kind': f'norequest:{type(e).__name__}'}
+        if not path:
+            return {'kind': 'nopath'}
+        self.seen_types = set()
+        self.amp_seen = self.fiber_seen = False
+        self.out_of_domain = False
+        TAP.arm(observer=self._observer)
+        try:
+            path, mode = propagate_and_optimize_mode(path, req, self.equipment)
+        except (ValueError, SpectrumError, ServiceError, IndexError, TypeError, KeyError) as e:
+            self.st.notes[f'propagation_refused:{type(e).__name__}'] += 1
+            return {'kind': f'refused:{type(e).__name__}'}
+        finally:
+            TAP.reset()
+        if not path or self.out_of_domain:
+            return {'kind': 'nothing-to-judge'}
+        self.st.probes['automatic_mode_selection_judged'] += 1
+        for trx_el in (path[0], path[-1]):
+            if getattr(trx_el, 'snr', None) is None:
+                continue
+            shapes = {np.shape(np.array(getattr(trx_el, k), dtype=float)) for k in ('snr', 'osnr_ase', 'osnr_nli')}
+            if len(shapes) != 1:
+                raise Violation('C01', 'reported-figures-have-different-channel-counts', f'{trx_el.uid}: {sorted(shapes)}')
+            with np.errstate(divide='ignore', invalid='ignore', over='ignore'):
+                l_ = 10 ** (-np.array(trx_el.snr, dtype=float) / 10)
+                r_ = 10 ** (-np.array(trx_el.osnr_ase, dtype=float) / 10) + \
+                    10 ** (-np.array(trx_el.osnr_nli, dtype=float) / 10)
+            if not np.allclose(l_, r_, rtol=1e-6, atol=0, equal_nan=True):
+                raise Violation('C01', 'reported-figures-break-gsnr-identity-after-mode-selection',
+                                f'{trx_el.uid} (mode {mode["format"] if mode else None}): GSNR '
+                                f'{np.round(np.array(trx_el.snr, dtype=float)[:2], 3)} OSNR_ASE '
+                                f'{np.round(np.array(trx_el.osnr_ase, dtype=float)[:2], 3)} SNR_NLI '
+                                f'{np.round(np.array(trx_el.osnr_nli, dtype=float)[:2], 3)}')
+        return {'kind': 'auto:' + (mode['format'] if mode else 'none')}
+
     def finish(self):
         if self.world['kind'] == 'comb':
             if self.noise_then_scale and self.did_mux:
@@ -546,6 +607,12 @@ def make_machine(prop, tier, cfg):
         def propagate(self, src, dst, copy, power, n, carriers):
             self.sess.apply('propagate', {'src': src, 'dst': dst, 'copy': copy,
                                           'spec': {'power_dbm': power, 'n': n, 'carriers': [list(c) for c in carriers]}})
+
+        @precondition(lambda self: self.layer == 2)
+        @rule(src=st.integers(0, 5), dst=st.integers(0, 5), trx=st.integers(0, 5),
+              spacing=st.sampled_from([50e9, 75e9, 62.5e9, 100e9]), nch=st.sampled_from([None, 20, 10, 40]))
+        def propagate_auto(self, src, dst, trx, spacing, nch):
+            self.sess.apply('propagate_auto', {'src': src, 'dst': dst, 'trx': trx, 'spacing': spacing, 'nch': nch})
 
         @precondition(lambda self: self.layer == 2 and self.sess is not None and self.sess.oplog
                       and self.sess.oplog[-1][0] == 'propagate')
